@@ -84,6 +84,11 @@ type memProfile struct {
 	InBuf        int    `json:"in_buf"`
 	OutBuf       int    `json:"out_buf"`
 	Reorder      bool   `json:"reorder"`
+	// SplitSkew (scalar memory): the pieces of a scalar load that the scalar
+	// unit split at a 64-byte line get clearly different latencies.
+	// 1 = piece ending at a line boundary fast, piece starting at one slow;
+	// 2 = the reverse.
+	SplitSkew int `json:"split_skew,omitempty"`
 }
 
 type pendRsp struct {
@@ -126,6 +131,25 @@ func (m *fakeMem) latency() int {
 	}
 	if l > m.maxLat {
 		m.maxLat = l
+	}
+	return l
+}
+
+// latencyFor applies the split skew to reads shorter than a line.
+func (m *fakeMem) latencyFor(req sim.Msg) int {
+	l := m.latency()
+	q, ok := req.(*mem.ReadReq)
+	if !ok || m.prof.SplitSkew == 0 || q.AccessByteSize >= 64 {
+		return l
+	}
+	endsAtLine := (q.Address+q.AccessByteSize)%64 == 0 && q.Address%64 != 0
+	startsAtLine := q.Address%64 == 0
+	slow := 250 + m.rng.Intn(500)
+	switch {
+	case endsAtLine && m.prof.SplitSkew == 1, startsAtLine && m.prof.SplitSkew == 2:
+		return 1
+	case endsAtLine && m.prof.SplitSkew == 2, startsAtLine && m.prof.SplitSkew == 1:
+		return l + slow
 	}
 	return l
 }
@@ -203,7 +227,7 @@ func (m *fakeMem) tick(a *simkit.Agent) bool {
 				}
 				rsp := m.serve(q)
 				if rsp != nil {
-					m.pending = append(m.pending, &pendRsp{rsp: rsp, ready: now + int64(m.latency())})
+					m.pending = append(m.pending, &pendRsp{rsp: rsp, ready: now + int64(m.latencyFor(q))})
 				}
 				taken++
 				progress = true
@@ -497,6 +521,7 @@ type instRec struct {
 	Start   int64
 	Ends    []int64 // every EndTask seen for the id
 	Reqs    []string
+	Split   int64 // scalar loads split into several requests: cycles between the first and the last response
 	TrueEnd int64 // memory instructions: cycle the CU retrieved the last response; -1 = never
 }
 
